@@ -131,7 +131,8 @@ fn add_stats(a: &mut Stats, b: &Stats, orders: &mut HashSet<u64>) {
         rounds_no_observers, deferred_write_rounds, multi_deferred_rounds, invalidations_observed,
         stale_gen_rounds, c03_superseded_with_live, c06_upper_judged, c06_lower_judged, c06_inconclusive,
         c06_suppressed_with_dependant, c06_gap_unsuppressed, cutoff_events, c07_writes_between,
-        c09_multi_sub_unchanged, downstream_of_bind_invoked, teardown_nodes_checked, teardown_tokens_checked
+        c09_multi_sub_unchanged, downstream_of_bind_invoked, teardown_nodes_checked, teardown_tokens_checked,
+        vars_dropped_in_closures, value_calls_compared, one_stabilise_teardowns
     );
     for o in &b.recompute_orders {
         orders.insert(*o);
@@ -150,7 +151,8 @@ pub fn stats_json(s: &Stats, orders: usize) -> J {
         rounds_no_observers, deferred_write_rounds, multi_deferred_rounds, invalidations_observed,
         stale_gen_rounds, c03_superseded_with_live, c06_upper_judged, c06_lower_judged, c06_inconclusive,
         c06_suppressed_with_dependant, c06_gap_unsuppressed, cutoff_events, c07_writes_between,
-        c09_multi_sub_unchanged, downstream_of_bind_invoked, teardown_nodes_checked, teardown_tokens_checked
+        c09_multi_sub_unchanged, downstream_of_bind_invoked, teardown_nodes_checked, teardown_tokens_checked,
+        vars_dropped_in_closures, value_calls_compared, one_stabilise_teardowns
     ))
 }
 
@@ -175,7 +177,13 @@ pub fn nontrivial(prop: &str, s: &Stats) -> bool {
 /// Runs `count` histories of a shard; writes one JSON report line to stdout.
 pub fn run_shard(profile_name: &str, prop: &str, seed: u64, shard: u64, start: u64, count: u64, progress: Option<&str>) -> J {
     let cfg = profile(profile_name);
-    let wcfg = Config { c06: true, ..Config::default() };
+    let wcfg = if std::env::var("VH_LIGHT").is_ok() {
+        // sanitizer legs: the engine is what is being watched, the value monitors stay on but the
+        // per-action audit and read-back are dropped to keep interpreted runs affordable
+        Config { audit: false, read_all: false, c06: false, compare_values: true }
+    } else {
+        Config { c06: true, ..Config::default() }
+    };
     let mut total = Stats::default();
     let mut orders = HashSet::new();
     let mut violations: Vec<J> = vec![];
